@@ -24,6 +24,10 @@ theorem lastVal_some (k : Kw) (l : List Param) (v : Val) (h : lastVal k l = some
         exact ⟨q, List.mem_cons_self, hq, h⟩
       · simp [lastVal, ht, hq] at h
 
+theorem lookup_merged_explicit (r : Request) (h : (r.kws.map Param.kw).Nodup) (p : Param) (hp : p ∈ r.kws) :
+    lookup p.kw (merged r).pmap = some p.val := by
+  simp [lookup_merged, lastVal_of_mem_nodup r.kws h p hp]
+
 theorem defaults_lookup : ∀ k ∈ defaultsList, lookup k defaults.pmap = some k.default := by decide
 
 theorem default_typed (k : Kw) : (k.default).ty = k.ty := by cases k <;> rfl
